@@ -267,7 +267,8 @@ def sampling_search(ctx, deep, only=None, record=None):
         idx = rng.permutation(len(allc))[:3]
         todo += [allc[i] for i in idx]
         todo += [("Exponential", {"rescale": 3.0}, 2, 64), ("Gaussian", {"rescale": 0.5}, 3, 64),
-                 ("TPLGaussian", {"len_low": 1.0}, 2, 1000), ("TPLExponential", {"len_low": 1.0}, 3, 1000)]
+                 ("TPLGaussian", {"len_low": 1.0}, 2, 1000), ("TPLExponential", {"len_low": 1.0}, 3, 1000),
+                 ("Matern", {"nu": 1.5, "rescale": 2.0}, 2, 64)]
         idx = rng.permutation(len(EXTRA_SAMPLING))[:3]
         todo += [EXTRA_SAMPLING[i] for i in idx if EXTRA_SAMPLING[i] not in todo]
     else:
